@@ -10,6 +10,7 @@ pub mod c05;
 pub mod c06;
 pub mod responder;
 pub mod c07;
+pub mod c08;
 pub mod c09;
 pub mod c10;
 pub mod c11;
@@ -29,6 +30,7 @@ pub fn run(id: &str, tier: Tier) -> i32 {
         "C05" => c05::run(tier),
         "C06" => c06::run(tier),
         "C07" => c07::run(tier),
+        "C08" => c08::run(tier),
         "C09" => c09::run(tier),
         "C10" => c10::run(tier),
         "C11" => c11::run(tier),
@@ -54,6 +56,7 @@ pub fn replay(id: &str, file: &Path) -> i32 {
         "C05" => c05::replay_file(file),
         "C06" => c06::replay(file),
         "C07" => c07::replay(file),
+        "C08" => c08::replay(file),
         "C09" => c09::replay(file),
         "C10" => c10::replay(file),
         "C11" => c11::replay_file(file),
